@@ -786,7 +786,7 @@ theorem addPrimaryKey_inv (t : Table) (cols : List Nat) (h : Inv t) : Inv (t.add
     · split
       · exact h
       · rename_i _ _ hadm
-        simp only [Bool.not_eq_true, Bool.not_eq_false] at hadm
+        have hadm : Table.keysAdmissible cols true t.rows [] = true := by simpa using hadm
         obtain ⟨a1, _, a3⟩ := keysAdmissible_spec cols true t.rows [] hadm
         constructor
         · intro u' hu'
@@ -795,7 +795,9 @@ theorem addPrimaryKey_inv (t : Table) (cols : List Nat) (h : Inv t) : Inv (t.add
           · apply rebuild_inv
             have : ukeys { cols := cols, skipNull := false, keys := [] } t.rows
                 = (t.rows.map (keyOf cols)).filter (fun k => !hasNull k) := by
-              simp only [ukeys, UIdx.relevant, Bool.false_and, Bool.not_false]
+              have hf : (UIdx.relevant { cols := cols, skipNull := false, keys := [] }) = (fun _ => true) := by
+                funext k; simp [UIdx.relevant]
+              simp only [ukeys, hf]
               rw [List.filter_eq_self.mpr (by simp), List.filter_eq_self.mpr]
               intro k hk
               obtain ⟨r, hr, rfl⟩ := List.mem_map.mp hk
@@ -815,7 +817,7 @@ theorem addUnique_inv (t : Table) (cols : List Nat) (h : Inv t) : Inv (t.addUniq
   · split
     · exact h
     · rename_i hadm _
-      simp only [Bool.not_eq_true, Bool.not_eq_false] at hadm
+      have hadm : Table.keysAdmissible cols false t.rows [] = true := by simpa using hadm
       obtain ⟨a1, _, _⟩ := keysAdmissible_spec cols false t.rows [] hadm
       constructor
       · intro u' hu'
@@ -825,7 +827,9 @@ theorem addUnique_inv (t : Table) (cols : List Nat) (h : Inv t) : Inv (t.addUniq
         · apply rebuild_inv
           have : ukeys { cols := cols, skipNull := true, keys := [] } t.rows
               = (t.rows.map (keyOf cols)).filter (fun k => !hasNull k) := by
-            simp [ukeys, UIdx.relevant]
+            have hf : (UIdx.relevant { cols := cols, skipNull := true, keys := [] }) = (fun k => !hasNull k) := by
+              funext k; simp [UIdx.relevant]
+            simp only [ukeys, hf]
           rw [this]; exact a1
       · exact h.notNull
       · exact h.checks
